@@ -2,6 +2,7 @@ package main
 
 import (
 	"fmt"
+	"go/constant"
 	"go/token"
 	"go/types"
 	"sort"
@@ -487,4 +488,112 @@ func lowerBounded(fn *ssa.Function, R *Renderer, site ssa.Instruction, v ssa.Val
 		return true
 	}
 	return false
+}
+
+// ---------------------------------------------------------------------------
+// C14-LASTIDX: `x[len(x)-k]` / `x[:len(x)-k]` (k >= 1) panics on a short x.  Module-wide: every
+// such index is cut off by a fact that bounds the length from below (len(x)-k >= 0, for a
+// string and k = 1 also x != ""), in the function itself.
+// ---------------------------------------------------------------------------
+
+func lastIdxOperand(idx ssa.Value) (ssa.Value, int64, bool) {
+	// idx = len(x) - k
+	for {
+		if cv, ok := idx.(*ssa.Convert); ok {
+			idx = cv.X
+			continue
+		}
+		break
+	}
+	bo, ok := idx.(*ssa.BinOp)
+	if !ok || bo.Op != token.SUB {
+		return nil, 0, false
+	}
+	k, ok := bo.Y.(*ssa.Const)
+	if !ok || k.Value == nil || k.Value.Kind() != constant.Int {
+		return nil, 0, false
+	}
+	cl, ok := bo.X.(*ssa.Call)
+	if !ok {
+		return nil, 0, false
+	}
+	b, ok := cl.Call.Value.(*ssa.Builtin)
+	if !ok || b.Name() != "len" || len(cl.Call.Args) != 1 {
+		return nil, 0, false
+	}
+	if k.Int64() < 1 {
+		return nil, 0, false
+	}
+	return cl.Call.Args[0], k.Int64(), true
+}
+
+func ruleLastIdx(rule string) ruleFn {
+	return func(c *Ctx) {
+		c.Doc(rule, "module-wide: an index or slice bound of the form len(x)-k (k >= 1) applied to x itself is cut off, on every path, by a fact that makes it non-negative (len(x)-k >= 0; x != \"\" for a string and k = 1; a range loop over x)")
+		n := 0
+		for _, fn := range prodFns(c.P) {
+			R := NewRenderer(fn)
+			eachInstr(fn, func(in ssa.Instruction) {
+				var x, idx ssa.Value
+				switch y := in.(type) {
+				case *ssa.IndexAddr:
+					x, idx = y.X, y.Index
+				case *ssa.Index:
+					x, idx = y.X, y.Index
+				case *ssa.Lookup:
+					if _, isMap := y.X.Type().Underlying().(*types.Map); isMap {
+						return
+					}
+					x, idx = y.X, y.Index // string index
+				case *ssa.Slice:
+					x = y.X
+					if y.High != nil {
+						idx = y.High
+					}
+					if y.Low != nil {
+						if _, _, ok := lastIdxOperand(y.Low); ok {
+							idx = y.Low
+						}
+					}
+				default:
+					return
+				}
+				if idx == nil {
+					return
+				}
+				of, k, ok := lastIdxOperand(idx)
+				if !ok || R.V(of) != R.V(x) {
+					return
+				}
+				n++
+				xt := R.V(x)
+				key := fmt.Sprintf("%s | %s[len-%d]", FnName(fn), xt, k)
+				atoms := []string{fmt.Sprintf("+len(%s) -%d >=0", xt, k)}
+				for m := k + 1; m <= k+3; m++ {
+					atoms = append(atoms, fmt.Sprintf("+len(%s) -%d >=0", xt, m))
+				}
+				if k == 1 {
+					atoms = append(atoms, neAtom(`""`, xt), "+len("+xt+") !=0")
+				}
+				ws := Query{Fn: fn, IsSite: func(i2 ssa.Instruction) bool { return i2 == in }, GenEdge: atomEdges(fn, R, atoms...)}.Run()
+				if len(ws) == 0 {
+					c.OK(rule, key, c.P.InstrPos(in), "length bounded from below on every path", true)
+				} else if why, ok := lastIdxAllowed[FnName(fn)+" | "+xt]; ok {
+					c.OK(rule, key, c.P.InstrPos(in), "exception: "+why, false)
+				} else {
+					c.Bad(rule, key, c.P.InstrPos(in), fmt.Sprintf("%s[len(%s)-%d] can be reached with len(%s) < %d: index out of range / slice bounds panic", xt, xt, k, xt, k), c.witness(ws[0]))
+				}
+			})
+		}
+		if n < 4 {
+			c.Undecided(rule, "vacuity-floor", "", fmt.Sprintf("only %d len(x)-k indexes found (4 on the confirmed tree)", n))
+		}
+	}
+}
+
+var lastIdxAllowed = map[string]string{
+	"(*replica.Replica).createDisk | $0.activeDiskData": "shape invariant: activeDiskData always starts with the nil placeholder (set up by the constructor, never spliced at index 0)",
+	"(*replica.Replica).readDiskData | $1":              "the argument is a directory entry that was selected by its .meta suffix (5 bytes) by the caller",
+	"(*replica.diffDisk).Sync | $0.files":               "shape invariant: files[0] is the nil placeholder, the head is always present while the replica is open (C17-SRV-GUARD: data path only on an open replica)",
+	"(*replica.diffDisk).fullWriteAt | $0.files":        "shape invariant: files[0] is the nil placeholder, the head is always present while the replica is open",
 }
